@@ -125,13 +125,17 @@ Section Sim.
   Hypothesis Hfix1 : fix1 M = true.
   Hypothesis Hfix7 : fix7 M = true.
   Hypothesis Hmemo : memo M = false.
-  Hypothesis Hconds : conds_ok S D E = true.
+  (** [wd]: with or without the directive conjunct.  A reporting executor needs it ([Hb]); a silent
+      one ([report M = false]) does not *)
+  Variable wd : bool.
+  Hypothesis Hconds : conds_gen S D E wd = true.
+  Hypothesis Hb : report M = true -> wd = true.
 
   (** [c] refines [s] wherever the document is fine for the type at hand *)
   Definition sim (c : completer) (s : scompleter) : Prop :=
     forall n ty f0 more path st,
       type_ok_with S (sels_ok S D E fuel n) ty (f0 :: more) = true ->
-      forallb (sel_conds_ok S E) (merge_subs f0 more) = true ->
+      forallb (sel_conds_gen S E wd) (merge_subs f0 more) = true ->
       simres st (fst (c ty f0 more path st)) (snd (c ty f0 more path st)) (s ty (f0 :: more) path).
 
   Lemma type_ok_list rec t fields : type_ok_with S rec (StList t) fields = type_ok_with S rec t fields.
@@ -142,7 +146,7 @@ Section Sim.
   (** *** list items *)
   Lemma sim_items n t f0 more path :
     type_ok_with S (sels_ok S D E fuel n) t (f0 :: more) = true ->
-    forallb (sel_conds_ok S E) (merge_subs f0 more) = true ->
+    forallb (sel_conds_gen S E wd) (merge_subs f0 more) = true ->
     forall items sitems, Forall2 sim items sitems -> Forall wf_completer sitems ->
     forall i st,
       let y := complete_items t f0 more path items i st in
@@ -226,14 +230,14 @@ Section Sim.
     forall n ty f0 more path st,
       args_total S D ot f0 = true ->
       type_ok_with S (sels_ok S D E fuel n) ty (f0 :: more) = true ->
-      forallb (sel_conds_ok S E) (merge_subs f0 more) = true ->
+      forallb (sel_conds_gen S E wd) (merge_subs f0 more) = true ->
       simres st (fst (c ty f0 more path st)) (snd (c ty f0 more path st)) (s ty (f0 :: more) path).
 
   Lemma sim_groups n children schildren ot path :
     (forall k, sim_at ot (children k) (schildren k)) -> (forall k, wf_completer (schildren k)) ->
     forall g st,
       forallb (group_ok_with S D (sels_ok S D E fuel n) ot) (to_spec g) = true ->
-      Forall (fun x => forallb (sel_conds_ok S E) (merge_subs (g_first x) (g_more x)) = true) g ->
+      Forall (fun x => forallb (sel_conds_gen S E wd) (merge_subs (g_first x) (g_more x)) = true) g ->
       let y := exec_groups S children ot path g st in
       let entries := flat_map (s_entry S schildren ot path) (to_spec g) in
       NoDup (map e_path (flat_map errs_of (map snd entries))) ->
@@ -344,10 +348,10 @@ Section Sim.
 
   (** *** a selection set *)
   Definition group_conds (x : group) : Prop :=
-    forallb (sel_conds_ok S E) (merge_subs (g_first x) (g_more x)) = true.
+    forallb (sel_conds_gen S E wd) (merge_subs (g_first x) (g_more x)) = true.
 
   Lemma gfs_append_conds k f g :
-    forallb (sel_conds_ok S E) (fn_sub f) = true -> Forall group_conds g -> Forall group_conds (gfs_append k f g).
+    forallb (sel_conds_gen S E wd) (fn_sub f) = true -> Forall group_conds g -> Forall group_conds (gfs_append k f g).
   Proof.
     intros Hf Hg. induction Hg as [|x r Hx Hr IH]; cbn [gfs_append].
     - constructor; [|constructor]. unfold group_conds, merge_subs. cbn. rewrite app_nil_r. exact Hf.
@@ -358,7 +362,7 @@ Section Sim.
   Qed.
 
   Lemma append_flat_conds flat g :
-    subs_ok S E flat -> Forall group_conds g -> Forall group_conds (append_flat flat g).
+    subs_ok S E wd flat -> Forall group_conds g -> Forall group_conds (append_flat flat g).
   Proof.
     intro H. revert g. induction H as [|kf flat Hkf _ IH]; intros g Hg; [exact Hg|].
     unfold append_flat in *. cbn [fold_left]. apply IH. apply gfs_append_conds; assumption.
@@ -387,7 +391,7 @@ Section Sim.
 
   Lemma sim_selections n children schildren ot sels path st :
     (forall k, sim (children k) (schildren k)) -> (forall k, wf_completer (schildren k)) ->
-    sels_ok S D E fuel n ot sels = true -> forallb (sel_conds_ok S E) sels = true ->
+    sels_ok S D E fuel n ot sels = true -> forallb (sel_conds_gen S E wd) sels = true ->
     simres st (fst (exec_selections M S D E fuel children ot sels path st))
            (snd (exec_selections M S D E fuel children ot sels path st))
            (s_selection_set S D E fuel schildren ot sels path).
@@ -404,9 +408,15 @@ Section Sim.
     unfold s_collect in Ec.
     destruct (s_collect_flat S D E fuel ot sels []) as [[v flat]|] eqn:Ef; [|discriminate].
     inversion Ec; subst groups. clear Ec.
-    destruct (collect_sim S D E Hconds fuel ot sels [] [] v flat Hcs Ef) as [Hci Hsubs].
+    destruct (collect_sim S D E wd Hconds fuel ot sels [] [] v flat Hcs Ef) as [Hci Hsubs].
     unfold exec_selections_raw, collect_fields. rewrite Hmemo, Hci.
-    rewrite (collect_errs_nil_conds S D E Hconds fuel ot sels [] Hcs), report_errs_nil.
+    assert (Hsilent : (if report M then snd (collect_errs S D E fuel ot sels []) else []) = []).
+    { destruct (report M) eqn:Er; [|reflexivity]. pose proof (Hb eq_refl) as Hbt.
+      pose proof Hconds as Hc'. pose proof Hcs as Hcs'. rewrite Hbt in Hc', Hcs'.
+      rewrite conds_gen_true in Hc'.
+      apply (collect_errs_nil_conds S D E Hc' fuel ot sels []).
+      rewrite <- (forallb_ext_eq _ _ sels (sel_conds_gen_true S E)). exact Hcs'. }
+    rewrite Hsilent, report_errs_nil.
     set (g := append_flat flat []) in *.
     assert (Hg : to_spec g = s_group flat) by apply to_spec_group.
     rewrite <- Hg in Hok |- *.
